@@ -491,6 +491,9 @@ def gen_queries(run, rng, n):
 def do_query(run, c):
     if run.baked is None:
         return
+    if not run.eager_ok:
+        run.stats['query_without_reference_unjudged'] += 1     # bake accepted a program the eager reference stopped in
+        return
     k = c['c']
     if k == 'q_used':
         q_used(run, c)
